@@ -1817,9 +1817,12 @@ size_t rtosc_scan_arg_val(const char* src,
                 //  => take it directly from there
                 if(*src == '.' && skip_fmt(&src, "%*f (%n"))
                 {
-                    sscanf(src, " ... + 0x%8"PRIx64"p-32 s )%n",
-                           &secfracs, &rd);
+                    // the exact fraction is a hex float, as the printer
+                    // writes it: "0x1.4p-1" as well as "0xa0000000p-32"
+                    rd = 0;
+                    sscanf(src, " ... + %f s )%n", &secfracsf, &rd);
                     src += rd;
+                    secfracs = rtosc_float2secfracs(secfracsf);
                 }
                 // float number, but not lossless?
                 //  => convert it to fractions of seconds
